@@ -18,6 +18,7 @@ from collada import primitive
 from collada import polylist
 from collada.common import E
 from collada.common import DaeIncompleteError
+from collada.util import parseUIntArray
 
 
 class Polygons(polylist.Polylist):
@@ -85,7 +86,7 @@ class Polygons(polylist.Polylist):
             if indexnode.text is None or indexnode.text.isspace():
                 index = numpy.array([], dtype=numpy.int32)
             else:
-                index = numpy.fromstring(indexnode.text, dtype=numpy.int32, sep=' ')
+                index = parseUIntArray(indexnode.text)
             index[numpy.isnan(index)] = 0
             polygon_indices.append(index)
 
